@@ -16,8 +16,17 @@ def document_witness(chk):
            {'id': 'put_a', 'method': 'PUT', 'path': '/a', 'versions': {'k': 'All'}},
            {'id': 'get_b_hidden', 'method': 'GET', 'path': '/b', 'versions': {'k': 'From', 'a': '1.0.0'}, 'visible': False},
            {'id': 'get_a_b', 'method': 'GET', 'path': '/a/b', 'versions': {'k': 'Until', 'b': '1.5.0'}},
-           {'id': 'get_root', 'method': 'GET', 'path': '/', 'versions': {'k': 'FromUntil', 'a': '1.5.0', 'b': '1.5.0'}}]
-    orders = [list(o) for o in itertools.islice(itertools.permutations(range(len(eps))), 0, 720, 37)]
+           {'id': 'get_root', 'method': 'GET', 'path': '/', 'versions': {'k': 'FromUntil', 'a': '1.5.0', 'b': '1.5.0'}},
+           # every method the document format has a slot for, on one path
+           {'id': 'head_m', 'method': 'HEAD', 'path': '/m', 'versions': {'k': 'All'}}, {'id': 'options_m', 'method': 'OPTIONS', 'path': '/m', 'versions': {'k': 'From', 'a': '1.0.0'}},
+           {'id': 'patch_m', 'method': 'PATCH', 'path': '/m', 'versions': {'k': 'All'}}, {'id': 'delete_m', 'method': 'DELETE', 'path': '/m', 'versions': {'k': 'Until', 'b': '2.0.0'}},
+           {'id': 'post_m', 'method': 'POST', 'path': '/m', 'versions': {'k': 'All'}}, {'id': 'get_m', 'method': 'GET', 'path': '/m', 'versions': {'k': 'All'}},
+           {'id': 'put_m', 'method': 'PUT', 'path': '/m', 'versions': {'k': 'All'}}]
+    import random
+    rnd = random.Random(20261003)
+    orders = [list(range(len(eps))), list(range(len(eps)))[::-1]]
+    for _ in range(18):
+        o = list(range(len(eps))); rnd.shuffle(o); orders.append(o)
     versions = ['0.9.0', '1.0.0', '1.4.9', '1.5.0', '1.5.1', '2.0.0-rc.1', '2.0.0', '3.0.0']
     case = {'op': 'openapi', 'endpoints': eps, 'orders': orders, 'versions': versions}
     r = replay([case])[0]
